@@ -22,6 +22,8 @@ pub fn profile(tier: Tier) -> Profile {
     let mut p = Profile::base(if tier == Tier::Quick { 40 } else { 120 });
     p.with_alt = true;
     p.w_update_state = 1;
+    // `purge_inside_newer_term` stays off: see DESIGN.md §9 (seeded C01-r5m2 is not caught)
+    p.purge_inside_newer_term = false;
     p.big_batches = true;
     p.huge_payload = tier == Tier::Thorough;
     p.big_read_buf = tier == Tier::Thorough;
@@ -68,6 +70,14 @@ fn one_pass(case: &Case, cfg: &CfgSpec, info: &mut CaseInfo, first: bool) -> Res
             check_stat_layout(run)?;
             if !run.model.cur.log.is_empty() {
                 nonempty_read = true;
+            }
+            // A purge id with a newer term at a live index below the last one (a snapshot that
+            // covers only a prefix of a conflicting log) leaves `last` below live entries: the
+            // entries above the purge point must still be there, but what further writes do on
+            // such a log (its terms now decrease along the index) is the caller's business, so
+            // the history is only read from here on and ends.
+            if matches!(op, OpSpec::Purge { beyond: 5, .. }) && run.classes.has("purge_inside_newer_term") {
+                break;
             }
         }
         if nonempty_read {
